@@ -240,13 +240,33 @@ Qed.
 
 Lemma analyze_path_inv f p : analyze_path f p = true ->
   exists sz t, stat f p = Some (NFile sz (Some t)) /\ suffix_ok (last p []) = true /\ (sz <= 100000)%N /\
-               visit true false t = [] /\ forall r, In r (roots t) -> shadowed f (removelast p) r = false.
+               visit true false t = [] /\ (forall r, In r (roots t) -> shadowed f (removelast p) r = false) /\
+               local_shadow f (removelast p) = false.
 Proof.
   unfold analyze_path, p_is_file. destruct (stat f p) as [[sz a| | |]|]; try discriminate.
   destruct (suffix_ok (last p [])); [|discriminate]. destruct (N.leb_spec sz 100000) as [Le|]; [|discriminate]. cbn [andb].
   destruct a as [t|]; [|discriminate].
-  destruct (source_viols (shadowed f (removelast p)) true t) eqn:SV; [|discriminate]. intros _.
-  apply source_viols_nil in SV as [V R]. exists sz, t. repeat split; assumption.
+  destruct (source_viols (shadowed f (removelast p)) (local_shadow f (removelast p)) true t) eqn:SV; [|discriminate]. intros _.
+  apply source_viols_nil in SV as [V [R L]]. exists sz, t. repeat split; assumption.
+Qed.
+
+(* local_shadow(base) is None, spelled out: no entry of the directory is importable under the name of a
+   standard-library or safe-listed module *)
+Lemma local_shadow_false f base q : local_shadow f base = false ->
+  walk true FUEL f [] base = Some q -> lstat f q = Some NDir ->
+  forall n, In n (dir_names f q) -> module_named n = true ->
+    (forall e, In e PY_IMPORTABLE_ENDINGS -> suffixb e n = false) /\ (mem_ch 46 n = false -> p_is_dir f (q ++ [n]) = false).
+Proof.
+  unfold local_shadow. intros H W D n Hn M. rewrite W, D in H. cbn [is_dir_node andb] in H.
+  assert (E : importable_entry f q n = false).
+  { destruct (importable_entry f q n) eqn:E; [|reflexivity]. exfalso.
+    assert (X : existsb (importable_entry f q) (dir_names f q) = true) by (apply existsb_exists; exists n; split; assumption).
+    rewrite X in H. discriminate. }
+  unfold importable_entry in E. rewrite M in E. cbn [andb] in E. apply orb_false_iff in E as [E1 E2]. split.
+  - intros e He. destruct (suffixb e n) eqn:S; [|reflexivity]. exfalso.
+    assert (X : existsb (fun e => suffixb e n) PY_IMPORTABLE_ENDINGS = true) by (apply existsb_exists; exists e; split; assumption).
+    rewrite X in E1. discriminate.
+  - intros Hd. rewrite Hd in E2. cbn [negb andb] in E2. exact E2.
 Qed.
 
 Lemma fs_resolve_inv f p r : fs_resolve f p = Some r -> exists q, realpath f p = Some q /\ r = render q.
@@ -262,13 +282,14 @@ Lemma env_sound_file f cc pc tokens i fl :
     nth_error tokens i = Some tok /\ realpath f (pjoin (cwd_of cc pc) tok) = Some q /\ link_free f q /\ all_good q /\
     lstat f q = Some (NFile sz (Some t)) /\ suffix_ok (last q []) = true /\ (sz <= 100000)%N /\ visit true false t = [] /\
     py_syspath0 f (cwd_of cc pc) tokens = (if safe_path tokens i then SP_none else SP_dir (removelast q)) /\
-    forall r, In r (roots t) -> shadowed f (removelast q) r = false.
+    (forall r, In r (roots t) -> shadowed f (removelast q) r = false) /\
+    local_shadow f (removelast q) = false.
 Proof.
   intros HA HC. unfold classify_fs in HA. apply args_sound in HA. rewrite HC in HA. cbn [sound] in HA.
   destruct HA as [Hi [Hx [tok [p [HN [HR HAn]]]]]]. split; [exact Hi|]. split; [exact Hx|].
   apply fs_resolve_inv in HR as [q [HQ ->]]. pose proof (realpath_good _ _ _ HQ) as G.
   unfold fs_analyze in HAn. rewrite path_comps_render in HAn by exact G.
-  apply analyze_path_inv in HAn as [sz [t [S [Sx [Le [V R]]]]]].
+  apply analyze_path_inv in HAn as [sz [t [S [Sx [Le [V [R LS]]]]]]].
   pose proof (realpath_link_free _ _ _ HQ) as LF.
   exists tok, q, sz, t. repeat split; try assumption.
   - apply stat_resolved; [exact LF|eapply realpath_plain; exact HQ|exact S].
@@ -277,9 +298,11 @@ Qed.
 
 Lemma env_sound_module f cc pc tokens i m fl :
   classify_fs f cc pc tokens = PAllow -> py_cmdline tokens = RModule i m fl ->
-  m = $"calendar" /\ fl_inspect fl = false /\ shadowed f (path_comps (cwd_of cc pc)) $"calendar" = false.
+  m = $"calendar" /\ fl_inspect fl = false /\ shadowed f (path_comps (cwd_of cc pc)) $"calendar" = false /\
+  local_shadow f (path_comps (cwd_of cc pc)) = false.
 Proof.
-  intros HA HC. unfold classify_fs in HA. apply args_sound in HA. rewrite HC in HA. exact HA.
+  intros HA HC. unfold classify_fs in HA. apply args_sound in HA. rewrite HC in HA. cbn [sound] in HA.
+  destruct HA as [Hm [Hi HS]]. unfold fs_shadow in HS. apply orb_false_iff in HS as [H1 H2]. repeat split; assumption.
 Qed.
 
 Lemma env_never_command_or_stdin f cc pc tokens :
@@ -295,23 +318,24 @@ Lemma not_dash_ne s : is_dash s = false -> str_eqb s dash = false.
 Proof. destruct s as [|c s]; [reflexivity|]. unfold is_dash, dash. cbn [prefixb str_eqb]. destruct (N.eqb 45 c) eqn:E; [discriminate|].
   intros _. rewrite N.eqb_sym in E. rewrite E. reflexivity. Qed.
 
-Lemma classify_two f cc pc py s : is_dash s = false ->
+Lemma classify_two f cc pc py s : is_dash s = false -> shell_rewrites s = false ->
   classify_fs f cc pc [py; s] =
   match realpath f (pjoin (cwd_of cc pc) s) with
   | None => PExn
   | Some q => if analyze_path f q then PAllow else PAsk
   end.
 Proof.
-  intros D. unfold classify_fs. rewrite classify_cons. unfold classify_body. cbn [scan]. rewrite D. cbn [negb orb].
-  cbn [sc_seen sc_mode sc_idx sc_arg known has_info forallb existsb negb mem_str orb nth_error].
-  rewrite (not_dash_ne _ D). unfold fs_resolve. destruct (realpath f (pjoin (cwd_of cc pc) s)) as [q|] eqn:R; [|reflexivity].
+  intros D SR. unfold classify_fs. rewrite classify_cons. unfold classify_body. cbn [scan]. rewrite D. cbn [negb orb].
+  cbn [sc_seen sc_mode sc_idx sc_arg known has_info forallb existsb negb mem_str orb andb nth_error].
+  rewrite (not_dash_ne _ D), SR. unfold fs_resolve. destruct (realpath f (pjoin (cwd_of cc pc) s)) as [q|] eqn:R; [|reflexivity].
   cbn [option_map]. unfold fs_analyze. rewrite path_comps_render by (eapply realpath_good; exact R). reflexivity.
 Qed.
 
 Lemma spelling_invariance f cc pc py1 py2 s1 s2 : is_dash s1 = false -> is_dash s2 = false ->
+  shell_rewrites s1 = false -> shell_rewrites s2 = false ->
   realpath f (pjoin (cwd_of cc pc) s1) = realpath f (pjoin (cwd_of cc pc) s2) ->
   classify_fs f cc pc [py1; s1] = classify_fs f cc pc [py2; s2].
-Proof. intros D1 D2 E. rewrite !classify_two by assumption. rewrite E. reflexivity. Qed.
+Proof. intros D1 D2 R1 R2 E. rewrite !classify_two by assumption. rewrite E. reflexivity. Qed.
 
 (* ------------------------------------------------------------------ a concrete file system for the examples *)
 
@@ -341,4 +365,43 @@ Lemma link_dir_is_not_enough :
 Proof.
   exists (ex_fs true), $"/w", [$"python3"; $"x.py"]. split; [vm_compute; reflexivity|].
   exists [$"lib"; $"x.py"], ex_script, $"json". vm_compute. repeat split; auto.
+Qed.
+
+(* ------------------------------------------------------------------ the analysis before 7bd370f, for the record *)
+
+(* only the roots the script itself imports were tested, only as <root>.py / <root>/; -m calendar only for calendar.py / calendar/ *)
+Definition analyze_path_legacy (f : fsys) (p : comps) : bool :=
+  match p_is_file f p with
+  | None => false
+  | Some (sz, a) =>
+      suffix_ok (last p []) && N.leb sz 100000 &&
+      match a with
+      | None => false
+      | Some t => match source_viols (shadowed f (removelast p)) false true t with [] => true | _ => false end
+      end
+  end.
+Definition classify_legacy (f : fsys) :=
+  classify (fs_resolve f) (fun p => analyze_path_legacy f (path_comps p)) (fun cwd => shadowed f (path_comps cwd) $"calendar").
+
+(* /w/x.py = import json, with one neighbour *)
+Definition ex_fs_nb (name : str) : fsys :=
+  [([$"w"], NDir); ([$"w"; $"x.py"], NFile 30 (Some ex_script)); ([$"w"; name], NFile 5 None)].
+
+Lemma roots_only_is_not_enough :
+  (* transitive: json loads re *)
+  (classify_legacy (ex_fs_nb $"re.py") (Some $"/w") [] [$"python3"; $"x.py"] = PAllow /\
+   local_shadow (ex_fs_nb $"re.py") [$"w"] = true /\ (forall r, In r (roots ex_script) -> shadowed (ex_fs_nb $"re.py") [$"w"] r = false)) /\
+  (* another importable form of the imported module itself *)
+  (classify_legacy (ex_fs_nb $"json.pyc") (Some $"/w") [] [$"python3"; $"x.py"] = PAllow /\
+   local_shadow (ex_fs_nb $"json.pyc") [$"w"] = true) /\
+  (classify_legacy (ex_fs_nb $"json.cpython-312-x86_64-linux-gnu.so") (Some $"/w") [] [$"python3"; $"x.py"] = PAllow /\
+   local_shadow (ex_fs_nb $"json.cpython-312-x86_64-linux-gnu.so") [$"w"] = true) /\
+  (* -m calendar loads datetime from the cwd *)
+  (classify_legacy (ex_fs_nb $"datetime.py") (Some $"/w") [] [$"python3"; $"-m"; $"calendar"] = PAllow /\
+   local_shadow (ex_fs_nb $"datetime.py") [$"w"] = true).
+Proof.
+  assert (R : forall r, In r (roots ex_script) -> shadowed (ex_fs_nb $"re.py") [$"w"] r = false).
+  { intros r Hr. assert (E : roots ex_script = [$"json"]) by (vm_compute; reflexivity). rewrite E in Hr.
+    destruct Hr as [<-|[]]. vm_compute. reflexivity. }
+  refine (conj (conj _ (conj _ R)) (conj (conj _ _) (conj (conj _ _) (conj _ _)))); vm_compute; reflexivity.
 Qed.
